@@ -47,7 +47,8 @@ P = {'id': 'C18',
               'stage_process_batch_is_map',
               'blob_batch_roundtrip',
               'store_ops',
-              'shutdown_refuses'],
+              'shutdown_refuses',
+              'yield_budget_history'],
  'trusted': ['modelled (M+S): src/concurrency/work_stealing.rs WorkStealingQueue::{push_local, pop_local, steal, balance, len} and '
              'WorkStealingExecutor::{submit, find_task, one worker_loop iteration incl. the periodic balance, total_queued, is_idle} with every queue '
              'operation one atomic step, and (ModelExec.v) the same executor with submit() split into its three critical sections for any number of '
